@@ -295,3 +295,38 @@ fn c15_valid_contract() {
     };
     let _ = a.valid();
 }
+
+pub fn post_arg_count(p: &PayloadContent, r: u8) -> bool {
+    match p {
+        PayloadContent::Verbose(a) => a.len() > 255 || r as usize == a.len(),
+        PayloadContent::NetworkTrace(s) => s.len() > 255 || r as usize == s.len(),
+        _ => r == 0,
+    }
+}
+
+fn i8_arg() -> Argument {
+    Argument {
+        type_info: TypeInfo { kind: TypeInfoKind::Signed(TypeLength::BitLength8), coding: StringCoding::UTF8, has_variable_info: false, has_trace_info: false },
+        name: None,
+        unit: None,
+        fixed_point: None,
+        value: Value::I8(kani::any()),
+    }
+}
+
+/// contract of PayloadContent::arg_count on every payload kind with 0..2 elements
+#[kani::proof_for_contract(crate::dlt::PayloadContent::arg_count)]
+#[kani::unwind(6)]
+fn c15_arg_count_contract() {
+    let p = match kani::any::<u8>() % 8 {
+        0 => PayloadContent::Verbose(Vec::new()),
+        1 => PayloadContent::Verbose(vec![i8_arg()]),
+        2 => PayloadContent::Verbose(vec![i8_arg(), i8_arg()]),
+        3 => PayloadContent::NetworkTrace(Vec::new()),
+        4 => PayloadContent::NetworkTrace(vec![Vec::new()]),
+        5 => PayloadContent::NetworkTrace(vec![Vec::new(), vec![1u8]]),
+        6 => PayloadContent::NonVerbose(kani::any(), Vec::new()),
+        _ => PayloadContent::ControlMsg(ControlType::Request, Vec::new()),
+    };
+    let _ = p.arg_count();
+}
